@@ -1,18 +1,177 @@
 /-
   Props.C14Readdir — fd_readdir: directory listings are complete (C14, part 2).
+
+  Model: Model/WasiReaddir.lean (the C function statement by statement) over Spec/Dir.lean
+  (POSIX directory streams).  `Rec`/`decode`/`clientView`/`client` (Lemmas/WasiPathReaddir.lean)
+  are the WASI client: it reads `bufferUsed`, parses the complete 24-byte-header entries in the
+  first `bufferUsed` bytes and, while the buffer came back full, calls again with the `d_next`
+  of the last complete entry.
 -/
-import W2c2Verif.Model.WasiReaddir
+import W2c2Verif.Lemmas.WasiPathReaddir
 
 namespace W2c2Verif.C14
 open W2c2Verif W2c2Verif.WasiPath W2c2Verif.Dir W2c2Verif.WasiReaddir
 
-/-- the generated constants and code shapes the hand-written readdir model relies on -/
+/-- the generated constants and code shapes the hand-written readdir model relies on
+    (in particular: the pinned code contains no `rewinddir`, and `seekdir` is guarded by
+    `cookie != WASI_DIRCOOKIE_START`) -/
 theorem gen_assumptions_readdir :
     Gen.WasiPath.direntSize = 24 ∧
     Gen.WasiPath.direntStores = [("next", 0, 8), ("inode", 8, 8), ("nameLength", 16, 4), ("fileType", 20, 1)] ∧
     Gen.WasiPath.dirCookieStart = 0 ∧ Gen.WasiPath.readdirCallsRewind = false ∧
     Gen.WasiPath.fileTypeTests = [("S_ISCHR", 2), ("S_ISDIR", 3), ("S_ISREG", 4), ("S_ISLNK", 7), ("S_ISBLK", 1)] ∧
     Gen.WasiPath.fileTypeUnknown = 0 := by
+  decide
+
+/-- **dirent_layout.**  The five statements that write an entry header (memset + four stores at
+    the generated offsets) produce, for any values, exactly: `d_next` as 8 little-endian bytes at
+    offset 0, `d_ino` (8, LE) at 8, `d_namlen` (4, LE) at 16, `d_type` (1) at 20, three zero
+    bytes of padding — 24 bytes — and change nothing else in memory. -/
+theorem dirent_layout (mem : Mem) (p next ino namlen ft : Nat)
+    (hp : p + 24 ≤ mem.length) (h32 : mem.length ≤ 4294967296) :
+    writeHeader mem p next ino namlen ft =
+      .val (mem.take p ++ (leBytes 8 next ++ leBytes 8 ino ++ leBytes 4 namlen ++ leBytes 1 ft ++ [0, 0, 0])
+            ++ mem.drop (p + 24)) ∧
+    (leBytes 8 next ++ leBytes 8 ino ++ leBytes 4 namlen ++ leBytes 1 ft ++ [0, 0, 0] : Bytes).length = 24 := by
+  constructor
+  · have hs := split_at_slice mem p 24 hp
+    conv => lhs; rw [hs]
+    exact writeHeader_seg (mem.take p) (slice mem p 24) (mem.drop (p + 24)) p next ino namlen ft
+      (by simp; omega) (slice_length mem p 24 hp) (by rw [← hs]; exact h32)
+  · exact header_length next ino namlen ft
+
+/-- the name follows the header unterminated, and a client that decodes header + name gets the
+    entry back (little-endian round trip of every field) -/
+theorem dirent_roundtrip (next ino ft : Nat) (name tail : Bytes)
+    (hn : next < 2 ^ 64) (hi : ino < 2 ^ 64) (hl : name.length < 2 ^ 32) (hf : ft < 256) :
+    decode (header next ino name.length ft ++ (name ++ tail)) = ⟨next, ino, name.length, ft, name⟩ :: decode tail :=
+  decode_complete next ino ft name tail (by simpa using hn) (by simpa using hi) (by simpa using hl) (by simpa using hf)
+
+/-- One call, wherever the stream gets positioned (`p`): no undefined behaviour, success, memory
+    size unchanged, and the client sees `bufferUsed` = what `emit` says and exactly the next
+    `emitCount` entries of the stream, complete and in order. -/
+theorem readdir_call (pm : Nat) (d : Dir) (path : Bytes) (hd : DirOK pm path d) (st : Option Pos) (cookie p : Nat)
+    (mem : Mem) (bufPtr bufLen usedPtr : Nat) (hp : p ≤ d.entries.length)
+    (hl : Layout mem.length bufPtr bufLen usedPtr)
+    (hpos : positionStream pm d path st mem cookie = .val (.inr (.at p))) :
+    ∃ mem' i', fdReaddir pm d path st mem bufPtr bufLen cookie usedPtr
+        = .val (.done ⟨Gen.WasiPath.errnoSuccess, some (.at i'), mem'⟩) ∧
+      mem'.length = mem.length ∧
+      clientView mem' bufPtr bufLen usedPtr =
+        ((emit d bufLen (d.entries.drop p) p 0).2.1,
+         recsFrom d p ((d.entries.drop p).take (emitCount bufLen (d.entries.drop p) 0))) := by
+  rw [fdReaddir_positioned pm d path st mem bufPtr bufLen cookie usedPtr _ hpos]
+  exact readFrom_at pm d path hd p hp mem bufPtr bufLen usedPtr hl
+
+/-- **readdir_exactly_once.**  For every directory (any number of entries, any names), every
+    buffer that can hold one entry of that directory (`24 + name length ≤ bufLen` for every
+    entry) and every placement of the buffers in guest memory: the client protocol started at
+    cookie 0 on a fresh descriptor terminates and yields every entry exactly once, in stream
+    order, with its `d_next`, inode, name length, type and name. -/
+theorem readdir_exactly_once (pm : Nat) (d : Dir) (path : Bytes) (hd : DirOK pm path d) (hpath : path.length < pm)
+    (mem : Mem) (bufPtr bufLen usedPtr : Nat)
+    (hmax : ∀ e ∈ d.entries, 24 + e.name.length ≤ bufLen) (h24 : 24 ≤ bufLen)
+    (hl : Layout mem.length bufPtr bufLen usedPtr) :
+    client pm d path bufPtr bufLen usedPtr (d.entries.length + 1) 0 none mem = some (recsFrom d 0 d.entries) := by
+  have := client_from pm d path hd bufPtr bufLen usedPtr hmax h24 (d.entries.length + 1) 0 0 none mem
+    (by omega) (by omega) hl (position_fresh pm d path mem hpath)
+  simpa using this
+
+/-- **readdir_resume_any_cookie.**  On an opened descriptor, wherever its stream stands, calling
+    with the `d_next` cookie of ANY entry (`loc p`, `1 ≤ p ≤ n`) resumes exactly after that entry:
+    the client protocol from there yields the entries `p, p+1, …` exactly once, in order. -/
+theorem readdir_resume_any_cookie (pm : Nat) (d : Dir) (path : Bytes) (hd : DirOK pm path d)
+    (mem : Mem) (bufPtr bufLen usedPtr : Nat)
+    (hmax : ∀ e ∈ d.entries, 24 + e.name.length ≤ bufLen) (h24 : 24 ≤ bufLen)
+    (hl : Layout mem.length bufPtr bufLen usedPtr) (s : Pos) (p : Nat) (h1 : 1 ≤ p) (hp : p ≤ d.entries.length) :
+    client pm d path bufPtr bufLen usedPtr (d.entries.length - p + 1) (d.loc p).toNat (some s) mem
+      = some (recsFrom d p (d.entries.drop p)) :=
+  client_from pm d path hd bufPtr bufLen usedPtr hmax h24 _ p _ (some s) mem hp (by omega) hl
+    (position_cookie pm d path hd.loc s mem p h1 hp)
+
+/-- **readdir_cookie0_restarts_partial.**  Cookie 0 starts at the first entry *on a descriptor
+    whose stream has not been opened yet* (this is `readdir_exactly_once`) and on an opened one
+    that still stands at the beginning.  The full statement (any opened descriptor) is false for
+    the pinned code: `readdir_cookie0_counterexample`. -/
+theorem readdir_cookie0_restarts_partial (pm : Nat) (d : Dir) (path : Bytes) (hd : DirOK pm path d)
+    (hpath : path.length < pm) (mem : Mem) (bufPtr bufLen usedPtr : Nat)
+    (hmax : ∀ e ∈ d.entries, 24 + e.name.length ≤ bufLen) (h24 : 24 ≤ bufLen)
+    (hl : Layout mem.length bufPtr bufLen usedPtr) (st : Option Pos) (hst : st = none ∨ st = some (.at 0)) :
+    client pm d path bufPtr bufLen usedPtr (d.entries.length + 1) 0 st mem = some (recsFrom d 0 d.entries) := by
+  rcases hst with h | h <;> subst h
+  · exact readdir_exactly_once pm d path hd hpath mem bufPtr bufLen usedPtr hmax h24 hl
+  · have := client_from pm d path hd bufPtr bufLen usedPtr hmax h24 (d.entries.length + 1) 0 0 (some (.at 0)) mem
+      (by omega) (by omega) hl (position_zero_open pm d path (.at 0) mem)
+    simpa using this
+
+/-- On an opened descriptor cookie 0 does NOT rewind: the listing continues from wherever the
+    previous call left the stream (`seekdir` is only called for non-zero cookies and there is no
+    `rewinddir`). -/
+theorem readdir_cookie0_continues (pm : Nat) (d : Dir) (path : Bytes) (hd : DirOK pm path d)
+    (mem : Mem) (bufPtr bufLen usedPtr : Nat)
+    (hmax : ∀ e ∈ d.entries, 24 + e.name.length ≤ bufLen) (h24 : 24 ≤ bufLen)
+    (hl : Layout mem.length bufPtr bufLen usedPtr) (p : Nat) (hp : p ≤ d.entries.length) :
+    client pm d path bufPtr bufLen usedPtr (d.entries.length - p + 1) 0 (some (.at p)) mem
+      = some (recsFrom d p (d.entries.drop p)) :=
+  client_from pm d path hd bufPtr bufLen usedPtr hmax h24 _ p 0 (some (.at p)) mem hp (by omega) hl
+    (position_zero_open pm d path (.at p) mem)
+
+/-- **readdir_cookie0_counterexample.**  For EVERY non-empty directory: after it has been listed to
+    the end (stream at the end), a new listing from cookie 0 on the same descriptor delivers
+    nothing instead of all entries.  (Replayed on the real code by the check: list a directory,
+    list again from cookie 0.) -/
+theorem readdir_cookie0_counterexample (pm : Nat) (d : Dir) (path : Bytes) (hd : DirOK pm path d)
+    (mem : Mem) (bufPtr bufLen usedPtr : Nat)
+    (hmax : ∀ e ∈ d.entries, 24 + e.name.length ≤ bufLen) (h24 : 24 ≤ bufLen)
+    (hl : Layout mem.length bufPtr bufLen usedPtr) (hne : d.entries ≠ []) :
+    client pm d path bufPtr bufLen usedPtr 1 0 (some (.at d.entries.length)) mem = some [] ∧
+    some ([] : List Rec) ≠ some (recsFrom d 0 d.entries) := by
+  constructor
+  · have := readdir_cookie0_continues pm d path hd mem bufPtr bufLen usedPtr hmax h24 hl d.entries.length (Nat.le_refl _)
+    simpa [recsFrom] using this
+  · cases hd' : d.entries with
+    | nil => exact absurd hd' hne
+    | cons e l => simp [recsFrom]
+
+/-! ### non-vacuity: a concrete directory satisfying every hypothesis -/
+
+/-- `.`, `..` and a file `ab`; tmpfs-like small positive locations -/
+def exampleDir : Dir :=
+  { entries := [⟨[46], 11, 4, none⟩, ⟨[46, 46], 2, 4, none⟩, ⟨[97, 98], 12, 8, none⟩],
+    loc := fun i => (i : Int) + (if i = 0 then 0 else 1) }
+
+theorem exampleDir_ok : DirOK 4096 [47, 116] exampleDir := by
+  constructor
+  · constructor
+    · intro i j hi hj h
+      simp only [exampleDir, List.length_cons, List.length_nil] at hi hj h
+      split at h <;> split at h <;> omega
+    · intro i h1 _; simp only [exampleDir]; split <;> omega
+    · intro i hi; simp only [exampleDir, List.length_cons, List.length_nil] at hi ⊢; split <;> omega
+  · intro e he
+    simp only [exampleDir, List.mem_cons, List.not_mem_nil, or_false] at he
+    rcases he with h | h | h <;> subst h <;> exact ⟨⟨by decide, by decide, by decide⟩, by intro h; exact absurd h (by decide)⟩
+
+example : Layout (List.replicate 64 (0 : UInt8)).length 8 56 0 := ⟨by decide, by decide, by decide, by decide⟩
+
+/-- the theorem instantiated: a 56-byte buffer lists the example directory completely -/
+example : client 4096 exampleDir [47, 116] 8 56 0 4 0 none (List.replicate 64 0)
+    = some (recsFrom exampleDir 0 exampleDir.entries) :=
+  readdir_exactly_once 4096 exampleDir [47, 116] exampleDir_ok (by decide) _ 8 56 0
+    (by intro e he; simp only [exampleDir, List.mem_cons, List.not_mem_nil, or_false] at he
+        rcases he with h | h | h <;> subst h <;> decide) (by decide) ⟨by decide, by decide, by decide, by decide⟩
+
+/-! ### the `lstat` fallback (entries whose `d_type` does not determine the file type) -/
+
+/-- **readdir_lstat_in_bounds_partial.**  Under `TypeOK` (which for an entry of unknown `d_type`
+    demands `|descriptor path| + 1 + |name| < PATH_MAX`) a call has no undefined behaviour — this
+    is `readdir_call`.  The code does not check that bound: without it the `strcpy`/`strcat` into
+    `char nativePath[PATH_MAX]` overflows.  Witness: PATH_MAX 16, descriptor path of 10 bytes,
+    one `DT_UNKNOWN` entry with a 6-byte name.  (No file system in this sandbox returns
+    DT_UNKNOWN, so this cannot be replayed on the real code.) -/
+theorem readdir_lstat_overflow_counterexample :
+    fdReaddir 16 ⟨[⟨[97, 98, 99, 100, 101, 102], 5, 0, some 4⟩], fun i => i⟩ (List.replicate 10 47) none
+      (List.replicate 64 0) 8 56 0 0 = .ub .bufferOverflow := by
   decide
 
 end W2c2Verif.C14
